@@ -27,7 +27,7 @@ def budget(tier):
 @st.composite
 def _cases(draw):
     basis = draw(st.sampled_from(["rydberg", "rydberg", "rydberg", "XY"]))
-    seq = draw(gen.seq_cases(n_min=1, n_max=4, basis=basis, allow_mod=True, max_ops=4, dur_hi=60))
+    seq = draw(gen.seq_cases(n_min=1, n_max=4, basis=basis, allow_mod=True, max_ops=4, dur_hi=60, allow_no_global=True))
     last_ns = draw(st.booleans())
     evals = draw(gen.eval_time_sets(3))
     return {"seq": seq, "dt": draw(st.one_of(gen.dts(), st.sampled_from([0.1, 0.25, 0.5, 0.7, 0.3]))),
